@@ -673,3 +673,50 @@ class AmbHolder:
                  bs: Optional[List[AmbB]] = None) -> None:
         T(self, locals())
         self.b, self.n, self.bs = b, n, bs
+
+
+# --------------------- underscore parameters, dashed keys, NO savorize hook
+class Under:
+    def __init__(self, a: int, b_c: int = 0,
+                 l_s: Optional[List[int]] = None) -> None:
+        T(self, locals())
+        self.a, self.b_c, self.l_s = a, b_c, l_s
+
+
+class UnderPerm:
+    """As Under, with a recogniser that does not look at the attributes."""
+    def __init__(self, a: int, b_c: int = 0,
+                 l_s: Optional[List[int]] = None) -> None:
+        T(self, locals())
+        self.a, self.b_c, self.l_s = a, b_c, l_s
+
+    @classmethod
+    def _yatiml_recognize(cls, node: yatiml.UnknownNode) -> None:
+        node.require_mapping()
+
+
+# ------------- abstract by listing ABC, but not first, no abstract methods
+class Fig:
+    def __init__(self, name: str) -> None:
+        T(self, locals())
+        self.name = name
+
+
+class Poly(Fig, abc.ABC):
+    def __init__(self, name: str, sides: int) -> None:
+        T(self, locals())
+        super().__init__(name)
+        self.sides = sides
+
+
+class Tri(Poly):
+    def __init__(self, name: str, sides: int, kind: str) -> None:
+        T(self, locals())
+        super().__init__(name, sides)
+        self.kind = kind
+
+
+class Draw:
+    def __init__(self, figs: List[Fig], main: Optional[Poly] = None) -> None:
+        T(self, locals())
+        self.figs, self.main = figs, main
